@@ -9,6 +9,7 @@ from xdsl.context import Context
 from xdsl.dialects import llvm
 from xdsl.dialects.builtin import IntAttr, IntegerAttr, ModuleOp, StringAttr
 from xdsl.ir import Block, SSAValue
+from xdsl.ir.post_order import PostOrderIterator
 from xdsl.utils.exceptions import LLVMTranslationException
 from xdsl.utils.target import Target
 
@@ -110,8 +111,11 @@ def _convert_func(op: llvm.FuncOp, llvm_module: ir.Module):
                 phi = builder.phi(convert_type(arg.type))
                 val_map[arg] = phi
 
-    # Convert ops in each block
-    for block in op.body.blocks:
+    # Convert ops block by block, dominators first (reverse post-order, then the
+    # unreachable blocks), so that every operand is already in val_map
+    order = list(reversed(tuple(PostOrderIterator(op.body.blocks[0]))))
+    order += [b for b in op.body.blocks if not any(b is o for o in order)]
+    for block in order:
         builder = ir.IRBuilder(block_map[block])
         # Position after any PHI nodes
         if block_map[block].instructions:
